@@ -131,6 +131,9 @@ func (pm *ProviderManager) Close() error
   props C07 C14
   modifies *
   ensures pm.stopped
+  ensures [returns-after-the-gc-loop-exited] tagged("recv:pm.closed")
+  ghost at call(cancel): $c14cancel = true
+  ghostvar $c14cancel bool = false
 
 func (pm *ProviderManager) GetProviders(ctx context.Context, k []byte) ([]peer.AddrInfo, error)
   props C07 C14
@@ -176,4 +179,18 @@ func (pm *ProviderManager) getProviderSetForKey(ctx context.Context, k []byte) (
   ghost at assign(ps.set): ps.$pos = $p2
   ghost at call(Since): $age = $ret0
   ghost at append(providers): assert(!($age > pm.provideValidity))
+
+# C14: the value store's Close stops the sweeper (when one was started) and
+# returns only after it announced its exit; the sweeper announces it on every path.
+func (v *ValueStore) Close() error
+  props C14
+  ghostvar $cancelled bool = false
+  modifies *
+  ensures [internal-waits-for-the-sweeper] imp($cancelled, tagged("recv:closed"))
+  ghost at call(cancel): $cancelled = true
+
+func (v *ValueStore) gcLoop(ctx context.Context, interval time.Duration, closed chan struct{})
+  props C14
+  modifies *
+  ensures [exit-is-announced] tagged("closed:closed")
 @*/
